@@ -33,6 +33,9 @@ PROBES = [
     ("shadowFixed", "F6", "package w\n\nvar F func(f int, b string) int\n\nvar W = deriveCurry(F)\n"),
     ("crossFixed", "F6", "package w\n\nvar F func(a int) func(a string) int\n\nvar W = deriveUncurry(F)\n"),
     ("voidFixed", "F25", "package w\n\nvar F func(a int, b string)\n\nvar W = deriveCurry(F)\n"),
+    ("prefixFixed", "F6b", "package w\n\nvar F func(innerParam_0 int) func(_ string) int\n\nvar W = deriveUncurry(F)\n"),
+    ("universeFixed", "universe", "package w\n\nvar F func(string int, b string) int\n\nvar W = deriveCurry(F)\n"),
+    ("resultsFixed", "resultname", "package w\n\nvar F func(a int, b string) (f int)\n\nvar W = deriveCurry(F)\n"),
     ("zeroFixed", "F5", "package w\n\ntype NI int\ntype S struct{ A int }\n\n"
      "func F0(a int) (NI, error) { return 0, nil }\n"
      "func F1(a NI) (S, [2]int, NI, error) { return S{}, [2]int{}, 0, nil }\n\nvar W = deriveCompose(F0, F1)\n"),
@@ -59,15 +62,18 @@ INFO_PROBES = [
 
 # reason reported by the model for a wrapper that does not compile -> finding id
 WHY_FINDING = {"unnamed": "F6", "shadow": "F6", "dup": "F6", "void": "F25", "zero": "F5", "emptylhs": "F5",
-               "errtype": "errtype", "errrecv": "errrecv", "typednil": "typednil", "locals": "locals"}
+               "errtype": "errtype", "errrecv": "errrecv", "typednil": "typednil", "locals": "locals", "resultname": "resultname"}
 WHY_TEXT = {
     "unnamed": "unnamed parameters: the wrapper body is printed as `f(, )` and does not compile",
     "shadow": "a parameter named like the generator's own binder (`f`, `err`) captures it: the wrapper does not compile",
     "dup": "uncurry merges outer and inner parameter lists whose names clash (also via its own innerParam_<i>/param_<i> renaming): duplicate parameter, does not compile",
+    # wording once the generator's own prefixes are unusable as user names (prefixFixed): only the user's own clash is left
+    "dup/prefixFixed": "uncurry merges the outer and the inner parameter list into one: a name the user wrote in BOTH lists (func(a A) func(a B) R) is declared twice, does not compile",
     "void": "a wrapped function WITHOUT results is forwarded as `return f(...)` by curry, uncurry, flip and apply: `f(...) (no value) used as value`, does not compile",
     "errtype": "(F50) a custom error type (named type with Error() string) as the last result of a stage is accepted, but the helper's parameter is printed with the predeclared error: the call does not compile (compose, traverse, fmap and join error forms)",
     "errrecv": "(F51) derive.IsError accepts a type whose Error method has a pointer receiver although it is used by value (does not implement error): exit 0, package does not compile",
     "typednil": "(F52) deriveJoin(f, e) with a nil value e of a custom error type: the helper receives a non-nil error, does not call f and returns zero values with a non-nil error",
+    "resultname": "a result named like a name the wrappers use (f, param_<i>, innerParam_<i>) is printed with its name in the innermost function literal and hides or duplicates it: the wrapper does not compile",
     "locals": "toerror declares its locals `out<i>, success := f(...)` in the scope of f's parameters: a parameter called success (not bool) or out<i> (not of result i's type), or all of them, makes the wrapper not compile",
     "zero": "derive.Zero prints `nil` as the zero value of a named basic type, struct or array: the helper does not compile",
     "emptylhs": "compose prints `, err0 :=` / `return , err0` for a stage without non-error results: the helper does not compile",
@@ -318,8 +324,11 @@ def compare(rep, info, prop, opnames, only_pkg=None):
         op, impl, model, spec = dd["witness"] or (None, None, None, None)
         wpkg = op.split(" ", 4)[3] if op else None
         wit = classes[wpkg]["Go"] if wpkg else ""
+        wtext = WHY_TEXT[why]
+        if why == "dup" and info["probe"].get("prefixFixed", {}).get("fixed"):
+            wtext = WHY_TEXT["dup/prefixFixed"]
         text = "%s: %s (%d packages, %d ops; minimal witness: %s)" % (
-            fid, WHY_TEXT[why], len(dd["pkgs"]), dd["ops"], wit[:200])
+            fid, wtext, len(dd["pkgs"]), dd["ops"], wit[:200])
         if "class:" + why in known:
             rep.known.append(text.replace(fid + ":", known["class:" + why]["id"] + ":", 1))
         elif fid in known and not known[fid].get("witness_class"):
@@ -379,9 +388,12 @@ def proof_part(rep, prop):
 # fixed, theorems that apply (with their side condition) when it is not)
 APPLICABLE = {
     "C15": [
-        (("unnamedFixed", "shadowFixed"), ["curry_spec_fixed", "flip_spec_fixed", "apply_spec_fixed", "uncurry_curry_fixed"],
-         ["curry_spec_partial", "flip_spec_partial", "apply_spec_partial", "uncurry_curry_partial",
+        (("unnamedFixed", "shadowFixed"), ["curry_spec_fixed", "flip_spec_fixed", "apply_spec_fixed"],
+         ["curry_spec_partial", "flip_spec_partial", "apply_spec_partial",
           "curry_full_fails", "flip_full_fails", "apply_full_fails"]),
+        (("unnamedFixed", "shadowFixed", "prefixFixed"), ["uncurry_curry_fixed", "uncurry_spec_prefix (only the user's own clash left: F6b)"],
+         ["uncurry_curry_partial"]),
+        (("resultsFixed",), ["results_stripped"], []),
         (("unnamedFixed", "shadowFixed", "voidFixed"), ["plumb_compiles_fixed"],
          ["curry_compiles_partial", "flip_compiles_partial", "apply_compiles_partial", "curry_witnesses"]),
         (("unnamedFixed", "shadowFixed", "crossFixed"), ["uncurry_spec_fixed"],
@@ -398,7 +410,7 @@ APPLICABLE = {
     ],
 }
 ALWAYS = {
-    "C15": ["rename_distinct", "tuple_spec"],
+    "C15": ["rename_distinct", "tuple_spec"],  # rename_distinct is stated for every variant of `unusable`
     "C16": ["compose_spec", "compose_no_failure", "compose_first_failure", "compose_calls_in_order", "traverse_spec",
             "fmapE_spec", "fmapE_fn_spec", "fmapE_fn_evaluates_nothing", "join_of_fmap_fn", "joinE_spec", "bindE_spec",
             "toerror_spec"],
